@@ -715,7 +715,7 @@ def gen_pairs(rng, mode="parse", stats=None):
                         elif self_a:
                             continue
                         c = {"name": b"p", "about": b"A", "args": [a, b, third], "groups": [], "subs": [],
-                             "settings": [], "aliases": []}
+                             "settings": ["args_override_self"] if (not self_a and chance(rng, 0.3)) else [], "aliases": []}
                         seq = []
                         for ch in pat:
                             seq.append(a if ch == "a" else b)
